@@ -723,13 +723,14 @@ func (s *Server) handleConnectionLoop(conn net.Conn, procHandler *NFSProcedureHa
 
 	connID := fmt.Sprintf("conn-%d", s.nextConnID.Add(1))
 
-	var connRateLimiter *RateLimiter
-	if s.handler != nil {
-		connRateLimiter = s.handler.rateLimiter
-	}
+	// The limiter is loaded for every request (and at exit): UpdatePolicyOptions may replace
+	// it while this connection is open, and requests on an established connection must be
+	// judged by the limiter of the policy in force.
 	defer func() {
-		if connRateLimiter != nil {
-			connRateLimiter.CleanupConnection(connID)
+		if s.handler != nil {
+			if rl := s.handler.rateLimiter.Load(); rl != nil {
+				rl.CleanupConnection(connID)
+			}
 		}
 	}()
 	vhook("cl.start", "conn", conn)
@@ -781,7 +782,11 @@ func (s *Server) handleConnectionLoop(conn net.Conn, procHandler *NFSProcedureHa
 			}
 
 			// Check rate limit
-			if connRateLimiter != nil && s.handler != nil && s.handler.policy.Load().EnableRateLimiting {
+			var connRateLimiter *RateLimiter
+			if s.handler != nil {
+				connRateLimiter = s.handler.rateLimiter.Load()
+			}
+			if connRateLimiter != nil && s.handler.policy.Load().EnableRateLimiting {
 				if !connRateLimiter.AllowRequest(authCtx.ClientIP, connID) {
 					reply := &RPCReply{
 						Header: call.Header,
